@@ -33,6 +33,16 @@ P = 0xFFFFFFFF00000001000000000000000000000000FFFFFFFFFFFFFFFFFFFFFFFF
 N = S.P256_N
 
 
+def _blk(sel, salt):
+    """an ECC auth block for selector sel; every other one (chosen from the case data) is constructed for ANOTHER selector and gets its public
+    key_selector attribute assigned afterwards - the block is what its attribute says when it is packed"""
+    if (sel + salt[0]) % 2:
+        b = B2.InitEccAuthBlock((sel + 1 + salt[1] % 3) % 4)
+        b.key_selector = sel
+        return b
+    return B2.InitEccAuthBlock(sel)
+
+
 def _shape(block, sel):
     if len(block) != 82:
         raise Violation("ECC block has %d bytes, expected 1+1+64+16" % len(block))
@@ -58,7 +68,7 @@ def check_explicit(case, rec):
     others = [B2.EccEncryptor((sel + 1) % 4)] if case.get("decoy") else []
     try:
         with sut.DetKeys(case_hash(case), fixed=case.get("eph_fixed", ())) as dk:
-            block = B2.InitEccAuthBlock(sel).pack(key, others + [enc])
+            block = _blk(sel, key).pack(key, others + [enc])
     except Exception as e:
         raise Violation("pack raised %s: %s" % (type(e).__name__, e))
     _shape(block, sel)
@@ -89,13 +99,13 @@ def check_default(case, rec):
     with sut.DetKeys(case_hash(case)) as rk:
         try:
             if how == "no-encryptor":
-                block = B2.InitEccAuthBlock(sel).pack(key, [])
+                block = _blk(sel, key).pack(key, [])
             elif how == "encryptor(sel)":
-                block = B2.InitEccAuthBlock(sel).pack(key, [B2.EccEncryptor(sel)])
+                block = _blk(sel, key).pack(key, [B2.EccEncryptor(sel)])
             elif how == "other-encryptors":
-                block = B2.InitEccAuthBlock(sel).pack(key, [B2.EccEncryptor((sel + 1) % 4), B2.ConfigSecurityCodeEncryptor(b"12345678")])
+                block = _blk(sel, key).pack(key, [B2.EccEncryptor((sel + 1) % 4), B2.ConfigSecurityCodeEncryptor(b"12345678")])
             else:
-                bec = sut.Bec2File(sut.Bf3File({}, [sut.Bf3Component({0xC3: b"\x02"}, b"abc")]), [B2.InitEccAuthBlock(sel)], key)
+                bec = sut.Bec2File(sut.Bf3File({}, [sut.Bf3Component({0xC3: b"\x02"}, b"abc")]), [_blk(sel, key)], key)
                 writers = [] if case.get("empty_writers") else [B2.EccEncryptor(sel)]
                 binary = bec.to_binary(writers)
                 hb, _ = M.parse_bec2_header(binary)
@@ -127,7 +137,7 @@ def check_repack(case, rec):
         rec.cls("repack.recipient-changes")
         rec.nt()
     privs = {"A": case["pa"], "B": case["pb"]}
-    blk = B2.InitEccAuthBlock(sel)
+    blk = _blk(sel, key)
     bec = sut.Bec2File(sut.Bf3File({}, [sut.Bf3Component({0xC3: b"\x02"}, b"abc")]), [blk], key)
     for step, who in enumerate(seq):
         writers = [] if who == "default" else [B2.EccEncryptor(sel, B2.EccDecryptor(sel, sut.private_key_from_int(privs[who])).public_key)]
@@ -187,7 +197,7 @@ def check_interleave(case, rec):
 
     def writer(key, priv):
         enc = B2.EccEncryptor(sel, B2.EccDecryptor(sel, sut.private_key_from_int(priv)).public_key)
-        return lambda: B2.InitEccAuthBlock(sel).pack(key, [enc])
+        return lambda: _blk(sel, key).pack(key, [enc])
 
     def run(i):
         st_ = dict(n=0, b=None)
